@@ -12,6 +12,7 @@ import (
 	"errors"
 	"fmt"
 	"io"
+	"os"
 	"strings"
 	"testing/iotest"
 
@@ -182,7 +183,10 @@ type readerPlan struct {
 	desc        string
 }
 
-const nReaderKinds = 14
+// kinds 14..21 are handed to golib as they are (no spy around them): standard
+// library readers whose optional methods (Size, Len, Seek, Stat, N, Buffered)
+// describe more, or something else, than the bytes that are still to come.
+const nReaderKinds = 22
 
 var fixedChunks = []int{1, 2, 3, 7, 8, 15, 16, 17, 31, 32, 33, 64}
 
@@ -211,6 +215,8 @@ func planReader(rng *ev.Rand, total int, fault int) readerPlan {
 		p.chunk = rng.Pick(16, 17, 64)
 	case 13:
 		p.eofWithData = true
+	case 14, 15, 16, 17, 18, 19, 20:
+		p.chunk = rng.Pick(1, 2, 7, 16, 17, 40, 300)
 	}
 	if p.kind >= 4 && p.kind <= 7 {
 		if rng.Chance(1, 3) {
@@ -262,6 +268,22 @@ func (p readerPlan) String() string {
 		d = fmt.Sprintf("custom WriterTo piece=%d (Read whole)", p.chunk)
 	case 12:
 		d = fmt.Sprintf("bufio.Reader size=%d over scripted chunk 5", p.chunk)
+	case 14:
+		d = fmt.Sprintf("raw *bytes.Reader, %d-byte prefix already consumed", p.chunk)
+	case 15:
+		d = fmt.Sprintf("raw *strings.Reader, %d-byte prefix already consumed", p.chunk)
+	case 16:
+		d = fmt.Sprintf("raw *bytes.Buffer, %d-byte prefix already consumed", p.chunk)
+	case 17:
+		d = fmt.Sprintf("raw *io.SectionReader positioned %d bytes into its section", p.chunk)
+	case 18:
+		d = fmt.Sprintf("raw *os.File positioned at offset %d, more bytes behind the data only if limited", p.chunk)
+	case 19:
+		d = fmt.Sprintf("raw *io.LimitedReader over a reader that holds %d more bytes", p.chunk)
+	case 20:
+		d = fmt.Sprintf("raw *bufio.Reader with %d bytes already taken out of its buffer", p.chunk)
+	case 21:
+		d = "raw *bytes.Reader, untouched"
 	default:
 		d = "scripted whole buffer, EOF with data"
 	}
@@ -311,11 +333,70 @@ func (p readerPlan) build(data []byte, rng *ev.Rand) (io.Reader, *spy, *sreader)
 		sr.steady = 5
 		in, hasWT = bufio.NewReaderSize(sr, p.chunk), true
 	}
+	if p.kind >= 14 {
+		// not observed: a spy would hide the concrete type and its optional methods
+		return rawReader(p.kind, p.chunk, data, own), &spy{seen: true, firstN: 16, max: 1 << 30}, nil
+	}
 	s := &spy{in: in, max: 8*len(data) + 256}
 	if hasWT {
 		return spyWT{s}, s, sr
 	}
 	return s, s, sr
+}
+
+// rawReader: a standard-library reader in a state in which what remains to be
+// read is exactly data, although its other methods speak of more.
+func rawReader(kind, k int, data []byte, rng *ev.Rand) io.Reader {
+	pre := rng.Bytes(k)
+	all := append(append([]byte{}, pre...), data...)
+	skip := func(r io.Reader) {
+		if _, err := io.ReadFull(r, make([]byte, k)); err != nil {
+			panic("harness: cannot consume the prefix: " + err.Error())
+		}
+	}
+	switch kind {
+	case 14:
+		r := bytes.NewReader(all)
+		skip(r)
+		return r
+	case 15:
+		r := strings.NewReader(string(all))
+		skip(r)
+		return r
+	case 16:
+		r := bytes.NewBuffer(all)
+		skip(r)
+		return r
+	case 17:
+		// the section is pre+data inside a larger ReaderAt, read position after pre
+		back := append(append(rng.Bytes(5), all...), rng.Bytes(9)...)
+		r := io.NewSectionReader(bytes.NewReader(back), 5, int64(len(all)))
+		if _, err := r.Seek(int64(k), io.SeekStart); err != nil {
+			panic("harness: " + err.Error())
+		}
+		return r
+	case 18:
+		f, err := os.CreateTemp(os.Getenv("VERIF_SCRATCH"), "c09-file-*")
+		if err != nil {
+			panic("harness: " + err.Error())
+		}
+		os.Remove(f.Name())
+		if _, err := f.Write(all); err != nil {
+			panic("harness: " + err.Error())
+		}
+		if _, err := f.Seek(int64(k), io.SeekStart); err != nil {
+			panic("harness: " + err.Error())
+		}
+		return f // unlinked already; the descriptor is closed by os.File's finalizer once the case has dropped it
+	case 19:
+		return &io.LimitedReader{R: bytes.NewReader(append(append([]byte{}, data...), pre...)), N: int64(len(data))}
+	case 20:
+		r := bufio.NewReaderSize(struct{ io.Reader }{bytes.NewReader(all)}, 64)
+		skip(r)
+		return r
+	default:
+		return bytes.NewReader(append([]byte{}, data...))
+	}
 }
 
 // swriter collects what golib writes.
